@@ -227,3 +227,24 @@ func userMailbox(u *User, name string) *Mailbox { return u.mailboxes[name] }
 //@   loop 0 invariant -1 <= i && i < len(mbox.l)
 //@   loop 0 invariant mbox.Mailbox == old(mbox.Mailbox) && __same(mbox.l, old(mbox.l))
 //@   loop 0 invariant forall k int :: 0 <= k && k < len(mbox.l) ==> mbox.l[k] == old(mbox.l[k])
+
+// FETCH sets \\Seen exactly when at least one requested body section is not a
+// PEEK section (any of them, not a particular one).
+//
+//@ pure
+func anyNonPeek(options *imap.FetchOptions, n int) bool {
+	return __exists(func(k int) bool { return 0 <= k && k < n && !options.BodySection[k].Peek })
+}
+
+// @ lemma
+// @ requires markSeen ==> anyNonPeek(options, len(options.BodySection))
+// @ requires !markSeen ==> forall k int :: 0 <= k && k < len(options.BodySection) ==> options.BodySection[k].Peek
+func lemmaMarkSeen(options *imap.FetchOptions, markSeen bool) {}
+
+//@ func (mbox *MailboxView) Fetch(w *imapserver.FetchWriter, numSet imap.NumSet, options *imap.FetchOptions) (err error)
+//@   props C09:pre@call,inv-init,inv-step
+//@   requires options != nil
+//@   at "var err error" with (markSeen bool) do lemmaMarkSeen(options, markSeen)
+//@   loop 0 vars (cell markSeen bool, i int)
+//@   loop 0 invariant -1 <= i && i < len(options.BodySection) && !markSeen
+//@   loop 0 invariant forall k int :: 0 <= k && k <= i ==> options.BodySection[k].Peek
